@@ -8,13 +8,13 @@ import tempfile
 from . import cnative, common
 
 PID = "C14"
-KINDS = ["S", "E", "A", "U", "H"]  # struct with fields, field-less struct, array of, unionref of, hybrid class
+KINDS = ["S", "E", "A", "U", "H", "D"]  # struct with fields, field-less struct, array of, unionref of, hybrid class, declared subclass of an array node
 
 
 def describe(tier):
     n = 3 if tier == "quick" else 4
     return dict(
-        rule="all dependency graphs on n <= %d named classes: node kind in {struct with fields, field-less struct, array of, union reference of, hybrid class}; "
+        rule="all dependency graphs on n <= %d named classes: node kind in {struct with fields, field-less struct, array of, union reference of, hybrid class, declared subclass of an array node}; "
         "structural edges (field by value, field through Ref, array item, union members) to earlier nodes consistent with the kind, plus arbitrary _depends_on "
         "edges (also forward ones, which close cycles); x every non-empty root subset in every order. Oracle: sort_classes(roots) holds the transitive closure, "
         "each class exactly once, each after everything it depends on; the source assembled by ContextCpu._build_sources has each XOBJ_TYPEDEF block once and "
@@ -29,7 +29,7 @@ def describe(tier):
 def graphs(n, max_dep):
     """yield (kinds, struct_edges, dep_edges): struct_edges[i] = tuple of (j, how) with j < i, dep_edges = set of (i, j)"""
     for kinds in itertools.product(KINDS, repeat=n):
-        if kinds[0] in ("A", "U"):
+        if kinds[0] in ("A", "U", "D"):
             continue
         per_node = []
         ok = True
@@ -41,7 +41,7 @@ def graphs(n, max_dep):
                 choices = []
                 for j in earlier:
                     c = [None, (j, "val")]
-                    if kinds[j] in ("S", "E", "H", "A"):
+                    if kinds[j] in ("S", "E", "H", "A", "D"):
                         c.append((j, "ref"))
                     choices.append(c)
                 for combo in itertools.product(*choices) if choices else [()]:
@@ -49,9 +49,11 @@ def graphs(n, max_dep):
             elif k == "E":
                 opts = [()]
             elif k == "A":
-                opts = [((j, "item"),) for j in earlier if kinds[j] in ("S", "E", "H", "U", "A")]
+                opts = [((j, "item"),) for j in earlier if kinds[j] in ("S", "E", "H", "U", "A", "D")]
+            elif k == "D":
+                opts = [((j, "base"),) for j in earlier if kinds[j] == "A"]
             elif k == "U":
-                mem = [j for j in earlier if kinds[j] in ("S", "E", "H", "A")]
+                mem = [j for j in earlier if kinds[j] in ("S", "E", "H", "A", "D")]
                 opts = [((j, "member"),) for j in mem] + [((a, "member"), (b, "member")) for a, b in itertools.combinations(mem, 2)]
             if not opts:
                 ok = False
@@ -88,6 +90,8 @@ def build_classes(kinds, se):
             c = type(name, (xo.Struct,), dict(_depends_on=[]))
         elif k == "A":
             c = classes[se[i][0][0]][2 + i]  # distinct extents: two array nodes over the same item must not share a class name
+        elif k == "D":
+            c = type(name, (classes[se[i][0][0]],), {})  # class N2(N1): pass -- N1 an array class that may be built itself
         elif k == "U":
             c = type(name, (xo.UnionRef,), dict(_reftypes=[classes[j] for j, _ in se[i]]))
         classes.append(c)
@@ -100,7 +104,10 @@ def model(kinds, se, deps, classes):
     for i, c in enumerate(classes):
         need.setdefault(c.__name__, set())
         for j, how in se[i]:
-            if how == "ref":
+            if how == "base":
+                # a declared subclass has the item of its base, not the base, as dependency
+                need[c.__name__].add(classes[se[j][0][0]].__name__)
+            elif how == "ref":
                 rn = "Ref" + classes[j].__name__
                 need.setdefault(rn, set()).add(classes[j].__name__)
                 need[c.__name__].add(rn)
